@@ -479,7 +479,7 @@ class NSGCoordinator(GameCoordinator):
         if host_ip in controlled_hosts: #only return data if the agent controls the host
             if host_ip in self._ip_to_hostname:
                 if self._ip_to_hostname[host_ip] in self._data:
-                    data = self._data[self._ip_to_hostname[host_ip]]
+                    data = set(self._data[self._ip_to_hostname[host_ip]])
         else:
             self.logger.debug("\t\t\tCan't get data in host. The host is not controlled.")
         return data
@@ -489,7 +489,7 @@ class NSGCoordinator(GameCoordinator):
         if host_ip in controlled_hosts: #only return data if the agent controls the host
             if host_ip in self._ip_to_hostname:
                 if host_ip in self._fw_blocks:
-                    known_blocks = self._fw_blocks[host_ip]
+                    known_blocks = set(self._fw_blocks[host_ip])
         else:
             self.logger.debug("\t\t\tCan't get data in host. The host is not controlled.")
         return known_blocks
